@@ -192,10 +192,17 @@ theorem readers_state_reset :
       explainedBy knownUnreset f = true := by
   decide +kernel
 
-/-- `every_member_accounted`: no data member of class Phreeqc is outside reset ∪ scratch ∪ healed ∪ file names -/
-theorem every_member_accounted :
-    ∀ f ∈ List.range memberCount, covered f = true ∨ explainedBy scratchIds f = true ∨ explainedBy healedIds f = true ∨
-      explainedBy fileNamesIds f = true ∨ explainedBy knownUnreset f = true := by
+/-- reset, or listed (itself or as a whole member) in one of the reviewed lists -/
+def accountedPath (i : Nat) : Bool :=
+  covered i || explainedBy scratchIds i || explainedBy healedIds i || explainedBy fileNamesIds i || explainedBy knownUnreset i
+
+/-- a struct-typed member is also accounted for when every accessed field of it is -/
+def accounted (i : Nat) : Bool :=
+  accountedPath i || (parentOf.any (fun p => p.2 == i) && parentOf.all (fun p => p.2 != i || accountedPath p.1))
+
+/-- `every_member_accounted`: no data member of class Phreeqc (and no directly accessed field of a struct-typed member) is
+    outside reset ∪ scratch ∪ healed ∪ file names -/
+theorem every_member_accounted : ∀ f ∈ List.range memberCount, accounted f = true := by
   decide +kernel
 
 /-- PHRQ_io switches that input can flip are restored by UnLoadDatabase / the read_input prologue or explained -/
